@@ -16,7 +16,7 @@ func checkC05(c *Ctx, r *Report) {
 		"(O-TFDT) every Fragment method that sets the track fragment decode time does so under a test on the sample count of the FIRST run of the track (TrafBox.Trun), so a later run cannot overwrite it; " +
 		"(O-PAIR) every Fragment method that appends samples to a run also accounts their data in the mdat; (O-NR) every CreateTrun(f.nextTrunNr) is followed by an increment of nextTrunNr; " +
 		"(DEP) the data offset stored in each trun depends on Moof.Size(), Mdat.HeaderSize(), the preceding runs' SizeOfData() and the write order; the mdat offset handed to TrunBox.GetFullSamples depends on " +
-		"tfhd.BaseDataOffset / moof.StartPos, trun.DataOffset and mdat.PayloadAbsoluteOffset(); defaults applied to samples depend on tfhd then trex; (DEP lazy-amount) the amount added to the lazy mdat size by AddSample/AddSamples/AddSampleToTrack is the size of the samples being added; (O-COPY) MdatBox.Data, which AddSampleData grows with append, is never assigned a caller's slice directly (SetData excepted by contract); (O-EQ) trun optimisation decides 'all samples equal' with == / != only. " +
+		"tfhd.BaseDataOffset / moof.StartPos, trun.DataOffset and mdat.PayloadAbsoluteOffset(); defaults applied to samples depend on tfhd then trex; (DEP lazy-amount) the amount added to the lazy mdat size by AddSample/AddSamples/AddSampleToTrack is the size of the samples being added; (W-NARROW-ACC) in package mp4 no running sum (durations, sizes) is kept in 32 bits or fewer and widened to 64 bits only afterwards; (O-COPY) MdatBox.Data, which AddSampleData grows with append, is never assigned a caller's slice directly (SetData excepted by contract); (O-EQ) trun optimisation decides 'all samples equal' with == / != only. " +
 		"Decides these necessary conditions; does not decide numeric correctness of offsets, multi-track interleavings in general, or optimisation correctness."
 	r.Assume("dependence = intraprocedural SSA data dependence plus return-value dependence of repository callees (3 levels); control dependence is taken from dominating branches")
 	for _, m := range []string{"Fragment.Encode", "Fragment.EncodeSW"} {
@@ -221,6 +221,8 @@ func checkC05(c *Ctx, r *Report) {
 			requireDeps(c, r, "DEP", "mp4."+m+":lazy-amount", c.Pos(st.Pos()), st.Val, []string{"field:Sample.Size"}, []string{"call:TrunBox.SizeOfData"}, "amount added to the lazy mdat size")
 		}
 	}
+	ruleNarrowAccumulator(c, r, "W-NARROW-ACC", func(f *ssa.Function) bool { return strings.HasPrefix(SSAFuncName(f), "mp4.") })
+	requireFixture(r, "W-NARROW-ACC", "narrowAcc", func(fc *Ctx, s *Report) { ruleNarrowAccumulator(fc, s, "W-NARROW-ACC", nil) })
 	if n := ruleNoAdoptThenAppend(c, r, "O-COPY"); n < 4 {
 		r.Undecided("O-COPY", "scope", "", "appended byte-slice fields not found")
 	}
